@@ -1,4 +1,5 @@
 import OpusModel.Ctl
+import OpusModel.SilkBw
 import OpusModel.Framing
 import Driver.Util
 /-
@@ -20,6 +21,12 @@ import Driver.Util
     ctl projenc <Fs> <ch> <app> <op>*
     ctl msdec <Fs> <ch> <streams> <coupled> <map> <op>*                (also projection decoder)
     ctl honour <Fs> <ch> <app> <sets> <frame_size> <bytes> <k> <sets2> <pk>*
+    ctl silkbw <fs_kHz> <saved_fs_kHz> <mode> <tfn> <API_fs> <desired> <max> <min> <allow> <can>
+                                                                       silk_control_audio_bandwidth → <ret> <mode'> <tfn'> <switchReady set>
+    ctl silkbwseq <Fs> <call>*                                         the calls logged inside one real encoder history, call =
+              <ch>,<fs_kHz>,<saved>,<mode>,<tfn>,<API_fs>,<desired>,<max>,<min>,<allow>,<can>,<ret>,<mode'>,<tfn'>,<ready>,<opus mode>,<opus bandwidth>
+              checked: every call against `controlBw`; the control inputs against `opusSilkIn` (some max_data_bytes);
+              channel 0's state before a call is reachable from its state after the previous call by a `Gap`
 
   op tokens:  s<id>:<v>  setter      g<id> getter (valid pointer)   n<id> getter (NULL)
               r  OPUS_RESET_STATE    m0|m1 SET_ENERGY_MASK(NULL|ptr)   c0|c1 CELT_GET_MODE(NULL|ptr)
@@ -421,7 +428,51 @@ def honour (fs ch app : Int) (sets : String) (fsz bytes : Int) (k : Nat) (sets2 
               | none => "OK"
   | r => resHead r
 
+/-! ### SILK's internal rate -/
+
+def bwOutStr (o : SilkBw.BwOut) : String := s!"{o.fsKHz} {o.st.mode} {o.st.tfn} {b2i o.ready}"
+
+/-- States channel 0 may be in before a call, given its state after the previous one: up to 8 coded
+    frames (a call covers at most 3; prefill adds 1), then possibly a prefill reset, or an init. -/
+def bwReach (p : SilkBw.BwSt) : List SilkBw.BwSt :=
+  let fr := (List.range 9).map (fun k => SilkBw.lpSteps k p)
+  fr ++ fr.map (SilkBw.prefillReset true) ++ [SilkBw.bwInit]
+
+/-- the control inputs Opus may hand over for (mode, bw): one per class of `effective_max_rate`. -/
+def bwOpusCands (fs mode bw : Int) (allow can : Bool) : List SilkBw.BwIn :=
+  [0, 18, 1276].map (fun mdb => SilkBw.opusSilkIn fs mode bw 50 mdb allow can)
+
+def silkSeq (fs : Int) : Nat → SilkBw.BwSt → List String → String
+  | n, _, [] => s!"ok {n}"
+  | n, prev, t :: rest =>
+    match parseIntList t with
+    | some [ch, f, sv, md, tf, api, des, mx, mn, al, cn, ret, md', tf', rdy, omode, obw] =>
+      let st : SilkBw.BwSt := { fsKHz := f, savedFsKHz := sv, mode := md, tfn := tf }
+      let i : SilkBw.BwIn := { apiFs := api, desired := des, maxFs := mx, minFs := mn, allow := al ≠ 0, can := cn ≠ 0 }
+      let o := SilkBw.controlBw st i
+      if bwOutStr o ≠ s!"{ret} {md'} {tf'} {rdy}" then s!"call {n}: controlBw gives {bwOutStr o}, the code {ret} {md'} {tf'} {rdy}"
+      else if api ≠ fs then s!"call {n}: API_fs_Hz {api} is not the encoder's rate"
+      else if (omode = 1000 ∨ omode = 1001) ∧ ¬ (bwOpusCands fs omode obw i.allow i.can).contains i then
+        s!"call {n}: control inputs ({des},{mx},{mn}) are not opusSilkIn of mode {omode} bandwidth {obw}"
+      else if ¬ (ret * 1000 ≤ mx ∧ mn ≤ ret * 1000 ∧ ret * 1000 ≤ api ∧ (ret = 8 ∨ ret = 12 ∨ ret = 16)) then
+        s!"call {n}: rate {ret} outside [min,max] / above the API rate"
+      else if ch = 0 then
+        if ¬ (bwReach prev).contains st then s!"call {n}: state before the call is not reachable from the state after the previous call"
+        else silkSeq fs (n + 1) (SilkBw.afterCall o) rest
+      else silkSeq fs (n + 1) prev rest
+    | _ => "bad-op"
+
 def handle : List String → String
+  | ["silkbw", f, sv, md, tf, api, des, mx, mn, al, cn] =>
+    match [f, sv, md, tf, api, des, mx, mn, al, cn].mapM parseInt with
+    | some [f, sv, md, tf, api, des, mx, mn, al, cn] =>
+      bwOutStr (SilkBw.controlBw { fsKHz := f, savedFsKHz := sv, mode := md, tfn := tf }
+        { apiFs := api, desired := des, maxFs := mx, minFs := mn, allow := al ≠ 0, can := cn ≠ 0 })
+    | _ => "bad-op"
+  | "silkbwseq" :: fs :: calls =>
+    match parseInt fs with
+    | some fs => silkSeq fs 0 SilkBw.bwInit calls
+    | none => "bad-op"
   | ["toc", mode, fr, bw, ch] =>
     match parseInt mode, parseInt fr, parseInt bw, parseInt ch with
     | some mode, some fr, some bw, some ch =>
